@@ -123,7 +123,7 @@ func twoPass(r *vcore.Run) {
 	var jobs []job
 	for _, fc := range []fieldCtx{fBN254, fBLS377} {
 		for _, b := range builders {
-			for k := 0; k < r.Pick(3, 10); k++ {
+			for k := 0; k < r.Pick(3, 40); k++ {
 				jobs = append(jobs, job{fc, b, "rc", k}, job{fc, b, "lk", k})
 			}
 		}
@@ -204,9 +204,6 @@ func twoPass(r *vcore.Run) {
 			rcoef = nativeRowCoeff(j.fc, x1)
 		}
 		forced := solveMultiplicity(c1.last[0], x1, rcoef, j.fc.mod)
-		if dbgTwoPass {
-			fmt.Printf("DBG %s %s %s k=%d table=%v queries=%v out=%v x=%v r=%v forced=%v\n", j.fc.name, j.b, j.kind, j.k, c1.last[0].table, c1.last[0].queries, c1.last[0].out, x1, rcoef, forced)
-		}
 		if forced == nil {
 			r.Inconclusive("twopass-no-solution(pole)")
 			return
@@ -240,7 +237,7 @@ func twoPass(r *vcore.Run) {
 			return
 		}
 		r.Count("twopass.rejected", 1)
-		r.SampleClass("twopass."+j.kind+"."+j.b, rep)
+		r.SampleClass("twopass."+j.kind, rep)
 	})
 }
 
@@ -324,7 +321,7 @@ func challengeDependence(r *vcore.Run) {
 			}
 			return ch, rec, lg.calls, e
 		}
-		for wi := 0; wi < r.Pick(3, 10); wi++ {
+		for wi := 0; wi < r.Pick(3, 30); wi++ {
 			base := &mgWit{A: randBelow(rng, pow2(60)), B: randBelow(rng, pow2(60)), Own: randBelow(rng, j.fc.mod)}
 			for k := range base.T1 {
 				base.T1[k] = randBelow(rng, j.fc.mod)
@@ -434,7 +431,7 @@ func challengeDependence(r *vcore.Run) {
 						r.Count("chal.moved:"+v.name, 1)
 					}
 				}
-				r.SampleClass("chal."+v.name, map[string]any{"field": j.fc.name, "builder": j.b, "changed": v.name,
+				r.SampleClass("chal", map[string]any{"field": j.fc.name, "builder": j.b, "changed": v.name,
 					"challenge_before": ch0[tagRecLast].String(), "challenge_after": fmt.Sprint(ch1[tagRecLast])})
 			}
 		}
@@ -518,10 +515,14 @@ func proverCase(r *vcore.Run, k *proverKit, sys constraint.ConstraintSystem, w w
 		if mustFail {
 			r.Count("prover."+class+"-rejected", 1)
 			r.Count("prover."+k.name+".prove-error", 1)
+			if class == "dishonest" {
+				rep["prover_said"] = perr.Error()
+				r.SampleClass("prover.dishonest", rep)
+			}
 		} else {
-			rep["prover_said"] = perr.Error()
-			r.Count("prover.HONEST-FAILED", 1)
-			r.Violation("prover-honest-failed/"+k.name+"/"+class, "the real prover failed on a true statement: "+perr.Error(), rep)
+			// completeness of the provers is C03's business: counted, not a C13 violation
+			r.Count("prover.HONEST-FAILED(completeness,not-C13)", 1)
+			r.Inconclusive("prover-failed-on-true-statement/" + k.name)
 		}
 		return
 	}
@@ -537,8 +538,8 @@ func proverCase(r *vcore.Run, k *proverKit, sys constraint.ConstraintSystem, w w
 		r.Count("prover."+class+"-rejected", 1)
 		r.Count("prover."+k.name+".proved-but-verifier-rejected", 1)
 	default:
-		rep["verifier_said"] = verr.Error()
-		r.Violation("prover-honest-proof-rejected/"+k.name+"/"+class, "honest proof rejected: "+verr.Error(), rep)
+		r.Count("prover.HONEST-PROOF-REJECTED(completeness,not-C13)", 1)
+		r.Inconclusive("honest-proof-rejected/" + k.name)
 	}
 }
 
@@ -554,7 +555,7 @@ func realProvers(r *vcore.Run) {
 	}
 	var jobs []job
 	for _, fc := range fcs {
-		for k := 0; k < r.Pick(2, 6); k++ {
+		for k := 0; k < r.Pick(2, 12); k++ {
 			jobs = append(jobs, job{fc, groth16Kit, k}, job{fc, plonkKit, k})
 		}
 	}
@@ -665,7 +666,7 @@ func realProvers(r *vcore.Run) {
 func testEngineSample(r *vcore.Run) {
 	// sequential on purpose: test.IsSolved keeps unsynchronised package-level counters
 	rng := r.Rand("engine")
-	for k := 0; k < r.Pick(12, 60); k++ {
+	for k := 0; k < r.Pick(12, 200); k++ {
 		fc := fBN254
 		plain := k%2 == 1
 		sh := mixShape(rng, 1+rng.IntN(6), fc.mod.BitLen(), plain)
@@ -698,7 +699,7 @@ func testEngineSample(r *vcore.Run) {
 			}
 		}
 	}
-	for k := 0; k < r.Pick(6, 30); k++ {
+	for k := 0; k < r.Pick(6, 100); k++ {
 		fc := fBN254
 		size := 1 + rng.IntN(12)
 		sh := genLkShape(rng, size, k%3, 1+rng.IntN(5), false, 1, true)
@@ -765,5 +766,3 @@ func testEngineSample(r *vcore.Run) {
 }
 
 var _ frontend.Circuit = (*mgCircuit)(nil)
-
-var dbgTwoPass = false
